@@ -1,4 +1,5 @@
 import MlModel.Lemmas.OwnerComposite
+import MlModel.Lemmas.OwnerAC
 /-! The controller state `Ctl.fin p o` is only ever held by a thread that is inside the finaliser of the ownership LTS
 (an invariant of the product, by induction over steps): so the hypothesis "inside `release_all`" of
 `xstep_fin_exit` holds in every reachable configuration. -/
@@ -55,12 +56,21 @@ theorem startPiece_ctl_other {pw : Pid → List Wid} {x x' : X} {s t : Tid} {op 
 theorem setCtl_ctl_other (e : Env) (s t : Tid) (c : Ctl) (h : t ≠ s) : (setCtl e s c).ctl t = e.ctl t := by
   simp [setCtl, upd_other _ _ h]
 
+theorem acstep_ctl_other {pw : Pid → List Wid} {x x' : X} {s t : Tid} {a : AC} (h : acstep pw x s a = some x')
+    (ht : t ≠ s) : x'.env.ctl t = x.env.ctl t := by
+  obtain ⟨act, _, he⟩ := acstep_plan h
+  unfold acExec at he
+  split at he
+  · rw [startPiece_ctl_other he ht]; exact acEnv_ctl_other _ _ _ _ ht
+  · simp only [Option.some.injEq] at he; subst he; exact acEnv_ctl_other _ _ _ _ ht
+
 theorem cstep_ctl_other {pw : Pid → List Wid} {x x' : X} {s t : Tid} {c : Ctl} (h : cstep pw x s c = some x')
     (ht : t ≠ s) : x'.env.ctl t = x.env.ctl t := by
   unfold cstep at h
   repeat' split at h
   all_goals first
     | (rw [startPiece_ctl_other h ht]; first | rfl | exact setCtl_ctl_other _ _ _ _ ht)
+    | exact acstep_ctl_other h ht
     | (simp only [Option.some.injEq] at h; subst h; exact setCtl_ctl_other _ _ _ _ ht)
     | exact absurd h (by simp)
 
@@ -233,6 +243,27 @@ theorem FinOK_step {pw : Pid → List Wid} {x x' : X} {s : Tid} (hF : FinOK x) (
         repeat' split at h
         all_goals first
           | (exfalso; simp only [Option.some.injEq] at h; subst h; simp at hctl'; done)
+          | (obtain ⟨act, hpl, he⟩ := acstep_plan h
+             obtain ⟨hk, _⟩ := acPlan_ok hpl
+             unfold acExec at he
+             split at he
+             · rename_i op hop
+               have hp := (startPiece_fin he hctl').1
+               simp only [acEnv_ctl] at hp
+               rcases hk with ⟨a', ha', _⟩ | ⟨o', ho', hpc'⟩
+               · rw [ha'] at hp; exact absurd hp (by simp)
+               · rw [ho'] at hp
+                 simp only [Ctl.fin.injEq] at hp
+                 obtain ⟨hp1, _⟩ := hp
+                 rw [hpc'] at hop
+                 simp only [Option.some.injEq] at hop
+                 subst hop; subst hp1
+                 exact viaFinalize he
+             · simp only [Option.some.injEq] at he; subst he
+               simp only [acEnv_ctl] at hctl'
+               rcases hk with ⟨a', ha', _⟩ | ⟨o', ho', hpc'⟩
+               · rw [ha'] at hctl'; exact absurd hctl' (by simp)
+               · rename_i hnone; rw [hpc'] at hnone; exact absurd hnone (by simp))
           | (have hp := (startPiece_fin h hctl').1
              simp only [setCtl_ctl, Ctl.fin.injEq] at hp
              obtain ⟨hp1, _⟩ := hp; subst hp1
